@@ -47,6 +47,7 @@ type selCase struct {
 	Path  Path       `json:"path"`
 	Texts []spelling `json:"texts"`
 	Det   bool       `json:"det"`
+	FDet  bool       `json:"fdet"`
 	Res   expRes     `json:"res"`
 	// related-selection families add fields; see filter.go
 	Extra json.RawMessage `json:"extra,omitempty"`
@@ -245,8 +246,27 @@ func (w *worker) runSel(c *selCase, raw []byte) {
 				w.viol(primary(P, "C01", "C18"), "parse-failed", text, before, fmt.Sprintf("Parse of a rendered sentence: err=%v panic=%v", pr.Err, pr.Panic), kinds, raw)
 				return
 			}
+			probed := ""
+			if P["C04"] {
+				// the document of the previous call of this process must still be what it was
+				if w.lastDoc != nil && snap(w.lastDoc) != w.lastSnap {
+					w.viol("C04", "earlier-document-modified-by-a-later-call", text, w.lastSnap, "the document of the previous retrieval reads "+snap(w.lastDoc)+" now (previous path: "+w.lastText+")", kinds, raw)
+				}
+				docProbe = func() {
+					if s := snap(doc); s != before && probed == "" {
+						probed = s
+					}
+				}
+			}
 			r := safeCall(pr.F, doc)
+			docProbe = nil
 			after := snap(doc)
+			if P["C04"] {
+				w.lastDoc, w.lastSnap, w.lastText = doc, after, text
+				if probed != "" {
+					w.viol("C04", "document-modified-during-the-call", text, before, "a user function called during the retrieval saw the document as "+probed, kinds, raw)
+				}
+			}
 			nontrivial := len(r.Vals) > 1 || (r.Err != nil)
 			if nontrivial && si == 0 && mi == 0 {
 				w.distinct(kinds + "|" + r.String())
@@ -342,12 +362,15 @@ func (w *worker) runSel(c *selCase, raw []byte) {
 					}
 				}
 			}
-			if si > 0 {
+			if si > 0 && !(P["C12"] && w.opts["allspell"] == "1") {
 				continue
 			}
 			// ---- C12 accessor mode parity
 			if P["C12"] {
 				w.checkAccessorParity(c, text, m, r, log, kinds, raw)
+			}
+			if si > 0 {
+				continue
 			}
 			// ---- C13 Set / Get
 			if P["C13"] && c.Det && mi == 0 {
@@ -440,8 +463,8 @@ func (w *worker) checkLog(c *selCase, log *callLog, text, before, kinds string, 
 		names[k] = true
 	}
 	for name := range names {
-		if name == "fid" || name == "gcnt" {
-			continue // reserved for filter operands: how often they run is left open (5.7d)
+		if (name == "fid" || name == "gcnt" || name == "fprobe") && !c.FDet {
+			continue // functions of filter operands under && / || or in nested filters: left open (5.7d)
 		}
 		e, g := exp[name], got[name]
 		ok := len(e) == len(g)
@@ -865,8 +888,17 @@ func (w *worker) checkOrder(c *selCase, text, kinds string, raw []byte) {
 				w.viol("C07", "order-differs", text, snap(doc), fmt.Sprintf("map built with insertion order #%d, evaluation %d: want %s got %s", mo, rep, expString(c.Res), r), fmt.Sprintf("keys=%d", nkeys), raw)
 				return
 			}
-			if decoy.F != nil {
+			// recycle the pooled key buffers: alternately a foreign object and a NARROWER sub-object of this
+			// document (its larger keys only), so that a stale buffer holds keys that all belong to the document
+			if rep%2 == 0 && decoy.F != nil {
 				safeCall(decoy.F, decoyDoc)
+			} else if len(c.Doc.O) >= 2 {
+				sub := MV{T: "obj", O: c.Doc.O[len(c.Doc.O)/3:]}
+				safeCall(f, sub.ToGo(m))
+				if len(sub.O) > 2 {
+					sub2 := MV{T: "obj", O: sub.O[len(sub.O)/2:]}
+					safeCall(f, sub2.ToGo(m))
+				}
 			}
 		}
 	}
